@@ -819,7 +819,11 @@ func (p *Prog) involvesNovelty(f *ssa.Function) bool {
 	p.novelty[f] = false
 	why := ""
 	novelFn := func(g *ssa.Function) bool {
-		if g == nil || g.Blocks == nil || g.Synthetic != "" || !isRepoPath(fnPkgPath(g)) || isFixturePkg(fnPkgPath(g)) || p.isTestFn(g) {
+		wasInstance := false
+		if g != nil && g.Origin() != nil {
+			g, wasInstance = g.Origin(), true // an instantiation of a generic function is as novel as the generic function
+		}
+		if g == nil || (g.Blocks == nil && !wasInstance) || g.Synthetic != "" || !isRepoPath(fnPkgPath(g)) || isFixturePkg(fnPkgPath(g)) || p.isTestFn(g) {
 			return false
 		}
 		// function literals are numbered, not named: one more or one less literal in a function renumbers them all,
